@@ -99,7 +99,8 @@ FUNC = "fun c => match c with (m, mem, ms, fr, out) => check_run m mem ms no_pre
 def jsonable(c, out):
     return dict(frames=[f.tolist() for f in c['frames']], search_range=[str(x) for x in c['sr']] if isinstance(c['sr'], tuple) else str(c['sr']),
                 memory=c['memory'], max_size=c['max_size'], link_strategy=c['strategy'], impl_labels=out,
-                **({'search_range_spelling': c['sr_spell']} if c.get('sr_spell') else {}), **({'bystander': True} if c.get('bystander') else {}))
+                **({'search_range_spelling': c['sr_spell']} if c.get('sr_spell') else {}), **({'bystander': True} if c.get('bystander') else {}),
+                **({'entry': 'link'} if c.get('entry') == 'link' else {}))
 
 
 def numba_cap_binding(c):
@@ -460,6 +461,27 @@ def run(chk):
         if numba_cap_binding(c):
             c['strategy'] = 'recursive'
         c['bystander'] = chk.rng.random() < 0.3
+        # a quarter of the movies go through trackpy.link on a table: frames without features are then missing frame
+        # NUMBERS, and every one of them must age the remembered trajectories by one step
+        c['entry'] = 'link' if (chk.rng.random() < 0.25 and len(c['frames'][0]) and len(c['frames'][-1]) and c['max_size'] == linkgen.LIMIT) else 'link_iter'
+        if c['entry'] == 'link':
+            c['bystander'] = False
+            if len(c['frames']) >= 3 and chk.rng.random() < 0.6:
+                # a stretch of 2-3 frame numbers without any feature; memory shorter or longer than the stretch
+                pos = chk.rng.randint(1, len(c['frames']) - 1)
+                nd0 = c['frames'][0].shape[1]
+                c['frames'] = c['frames'][:pos] + [np.empty((0, nd0))] * chk.rng.randint(2, 3) + c['frames'][pos:]
+                c['memory'] = chk.rng.choice([1, 1, 2, 3])
+                chk.tally('table with a stretch of missing frame numbers')
+            chk.tally('through trackpy.link (table; empty frames = missing frame numbers)')
+            from props import c03
+            with record_subnets(sublog, 400 if chk.tier == 'quick' else 6000), linkgen.size_limit(c['max_size']):
+                out = c03.run_table(c['frames'], c['sr'], c['memory'], c['strategy'], 'link')
+            if out in ('skip', 'oversize'):
+                chk.tally('table run skipped (%s)' % out); continue
+            cases.append(c); outs.append(out); terms.append(case_term(c, out))
+            chk.tally('strategy=' + c['strategy']); chk.tally('memory=%d' % c['memory'])
+            continue
         if c['bystander']:
             chk.tally('link_iter with another linking job alive')
         with record_subnets(sublog, 400 if chk.tier == 'quick' else 6000):
@@ -556,7 +578,12 @@ def replay(chk, path):
                  max_size=cj['max_size'], strategy=cj['link_strategy'])
         c['ndim'] = max(f.shape[1] for f in c['frames'])
         c['bystander'] = bool(cj.get('bystander'))
-        out = linkgen.run_link_iter(c['frames'], c['sr'], memory=c['memory'], link_strategy=c['strategy'], max_size=c['max_size'], bystander=c['bystander'])
+        if cj.get('entry') == 'link':
+            from props import c03
+            with linkgen.size_limit(c['max_size']):
+                out = c03.run_table(c['frames'], c['sr'], c['memory'], c['strategy'], 'link')
+        else:
+            out = linkgen.run_link_iter(c['frames'], c['sr'], memory=c['memory'], link_strategy=c['strategy'], max_size=c['max_size'], bystander=c['bystander'])
         res = common.coq_eval_lists(chk.work, IMPORTS, FUNC, [case_term(c, out)])
         chk.count(('movie', cj), True)
         print('replay: implementation labels', out, 'monitor code', res[0], CODES.get(res[0]))
